@@ -238,6 +238,34 @@ fn builtin_easings_at_keyframes(acc: &mut Acc) {
     }
 }
 
+/// Keyframe positions that are not dyadic (1%, 3%, 7%, 15%, 20%, 35%, 40%, ...) hit exactly: with a power-of-two
+/// cycle and no delay the time p x cycle (forward) or p x cycle / 2 (forward pass of a reversing timeline) is exact
+/// and maps to exactly p, so the value must be the keyframe's - exactly for the integer, within 4 ulp for the float.
+fn nondyadic_positions_hit_exactly(acc: &mut Acc) {
+    let init = P::sentinel();
+    for (pi, &p) in [0.01f32, 0.03, 0.05, 0.07, 0.1, 0.12, 0.15, 0.2, 0.22, 0.3, 0.35, 0.4, 0.45, 0.6, 0.7, 0.9].iter().enumerate() {
+        for &cycle in &[0.25f32, 0.5, 1.0, 2.0, 4.0, 64.0] {
+            for reverse in [false, true] {
+                for rep in [Repeat::None, Repeat::Times(2), Repeat::Infinite] {
+                    for (vi, &(a1, k1)) in [(1000.0f32, 1i32 << 30), (-0.375, -(1 << 30))].iter().enumerate() {
+                        let tl = P::timeline().duration_seconds(cycle).repeat(rep).reverse(reverse).keyframe(P::keyframe(0.0).a(0.0).k(0)).keyframe(P::keyframe(p).a(a1).k(k1)).keyframe(P::keyframe(1.0).a(8.0).k(7)).build();
+                        acc.timelines += 1;
+                        let t = if reverse { p * cycle / 2.0 } else { p * cycle };
+                        let got = eval_real(&tl, t, &init);
+                        acc.evals += 1;
+                        acc.exact_checks += 2;
+                        if got.k != k1 || (got.a - a1).abs() > 4.0 * ulp32(a1) {
+                            acc.sink.add("non-dyadic-position:keyframe-value-not-reached", (7u64 << 60) | (pi as u64) << 16 | (reverse as u64) << 8 | vi as u64, || {
+                                (format!("keyframe at {p} (a = {a1}, k = {k1}) in a {cycle} s timeline, {rep:?}, reverse {reverse}: at t = {t}, which maps to exactly that position, got a = {} k = {}", got.a, got.k), json!({"family": "non-dyadic-positions", "position": p, "cycle": cycle, "reverse": reverse, "repeat": format!("{rep:?}"), "t": t}))
+                            });
+                        }
+                    }
+                }
+            }
+        }
+    }
+}
+
 /// Wide (2^j+1 keyframes) and tall (all subsets of a 9-point grid) families of common.rs, evaluated at
 /// exactly every keyframe position (forward, reverse and repeated pass).
 fn wide_tall_pass(thorough: bool) -> Acc {
@@ -379,6 +407,7 @@ pub fn run(run: Run) -> ! {
     whole_second_cycles(&mut acc);
     extreme_values(&mut acc);
     builtin_easings_at_keyframes(&mut acc);
+    nondyadic_positions_hit_exactly(&mut acc);
     let wt = wide_tall_pass(run.is_thorough());
     let wt_evals = wt.evals;
     acc.sink.merge(wt.sink);
@@ -392,7 +421,7 @@ pub fn run(run: Run) -> ! {
     cov.insert("traces_validated_against_impl".into(), json!(acc.evals));
     cov.insert("evaluations".into(), json!(acc.evals));
     cov.insert("distinct_nontrivial".into(), json!(acc.exact_checks));
-    cov.insert("rule".into(), json!(format!("keyframe lists of size 0..={nmax} with per-property distinct positions (same alphabet as C01, incl. the variant with the f64 property d in place of a below the largest size) x 13 dyadic timing configurations (incl. Times 0/1/2/3, Infinite, reverse) x {{no start, start_with(v*)}} x exact-hit times delay+cycle*(c+p) / reversing delay+cycle*(c+p/2), delay+cycle*(c+1-p/2) for all grid positions p and cycles c<=3, t in {{0,delay/2,delay}}, every forward-pass end, and 6 after-end times (next f32 after total .. f32::MAX); every timeline is additionally evaluated wrapped in MergedTimeline::from (bit-equal); a non-dyadic companion evaluates 336 repeating timelines (cycles 0.1..2.3, delays 0..1.3, Times 1..20, reverse) at exactly the reported duration() and the 8 f32 values after it: the terminal value must be shown; a whole-second companion (every cycle length 1..=64 s x delays 0, 1/2, 3 x Infinite/Times(1)/Times(3) x reverse, at exactly every cycle boundary and half cycle of the first four cycles, same exact oracle: the end of every forward pass shows 100%); an extreme-values companion (neighbouring keyframe values -f32::MAX / f32::MAX, -2^127 / 2^127 for f64, i32::MIN / 2^30, under all 13 timings at every exact-hit and after-end time); every built-in easing as default easing and as keyframe easing, evaluated at the delay, at every keyframe position of two cycles and after the end; plus the WIDE family (2^j+1 keyframes at i/2^j, j in {{4,8,16}} quick / 1..=17 thorough, two property patterns) and the TALL family (every subset of size >= 2 of {{0,1/8,..,1}}) evaluated at exactly every keyframe position in the forward, reverse and repeated pass, with and without start_with; non-trivial = (evaluation, property) whose position coincides with exactly one keyframe of that property, compared exactly (int) / within 4 ulp (float)")));
+    cov.insert("rule".into(), json!(format!("keyframe lists of size 0..={nmax} with per-property distinct positions (same alphabet as C01, incl. the variant with the f64 property d in place of a below the largest size) x 13 dyadic timing configurations (incl. Times 0/1/2/3, Infinite, reverse) x {{no start, start_with(v*)}} x exact-hit times delay+cycle*(c+p) / reversing delay+cycle*(c+p/2), delay+cycle*(c+1-p/2) for all grid positions p and cycles c<=3, t in {{0,delay/2,delay}}, every forward-pass end, and 6 after-end times (next f32 after total .. f32::MAX); every timeline is additionally evaluated wrapped in MergedTimeline::from (bit-equal); a non-dyadic companion evaluates 336 repeating timelines (cycles 0.1..2.3, delays 0..1.3, Times 1..20, reverse) at exactly the reported duration() and the 8 f32 values after it: the terminal value must be shown; a whole-second companion (every cycle length 1..=64 s x delays 0, 1/2, 3 x Infinite/Times(1)/Times(3) x reverse, at exactly every cycle boundary and half cycle of the first four cycles, same exact oracle: the end of every forward pass shows 100%); an extreme-values companion (neighbouring keyframe values -f32::MAX / f32::MAX, -2^127 / 2^127 for f64, i32::MIN / 2^30, under all 13 timings at every exact-hit and after-end time); every built-in easing as default easing and as keyframe easing, evaluated at the delay, at every keyframe position of two cycles and after the end; keyframes at 16 non-dyadic positions (1% .. 90%) hit at the exactly representable time p x cycle (forward) / p x cycle / 2 (reversing) for power-of-two cycles; plus the WIDE family (2^j+1 keyframes at i/2^j, j in {{4,8,16}} quick / 1..=17 thorough, two property patterns) and the TALL family (every subset of size >= 2 of {{0,1/8,..,1}}) evaluated at exactly every keyframe position in the forward, reverse and repeated pass, with and without start_with; non-trivial = (evaluation, property) whose position coincides with exactly one keyframe of that property, compared exactly (int) / within 4 ulp (float)")));
     cov.insert("exhaustive".into(), json!(true));
     cov.insert("max_keyframes".into(), json!(nmax));
     cov.insert("after_end_constancy_groups".into(), json!(acc.after_end_groups));
@@ -402,9 +431,10 @@ pub fn run(run: Run) -> ! {
 }
 
 pub fn replay(case: &Value) -> bool {
-    if case["family"] == "builtin-easings-at-keyframes" {
+    if case["family"] == "builtin-easings-at-keyframes" || case["family"] == "non-dyadic-positions" {
         let mut acc = Acc::default();
         builtin_easings_at_keyframes(&mut acc);
+        nondyadic_positions_hit_exactly(&mut acc);
         for (s, v) in &acc.sink.map {
             println!("{s}: {}", v.desc);
         }
